@@ -258,8 +258,8 @@ impl Property for C06 {
     }
     fn cases(&self, tier: Tier) -> u32 {
         match tier {
-            Tier::Quick => 4000,
-            Tier::Thorough => 50000,
+            Tier::Quick => 80_000,
+            Tier::Thorough => 800_000,
         }
     }
     fn rule(&self) -> String {
